@@ -14,8 +14,10 @@
 package vsync
 
 import (
+	"fmt"
 	"reflect"
 	"sync"
+	"sync/atomic"
 	"unsafe"
 )
 
@@ -47,7 +49,9 @@ var (
 
 // Pool mirrors the API surface of sync.Pool used by gobwas/pool.
 type Pool struct {
-	New func() interface{}
+	recent   []interface{} // last objects put in the non-recycling modes (double-put detection)
+	recentAt int
+	New      func() interface{}
 
 	real       sync.Pool
 	free       []interface{}
@@ -72,6 +76,7 @@ func ResetAll() {
 	mu.Lock()
 	for _, p := range pools {
 		p.free = nil
+		p.recent, p.recentAt = nil, 0
 	}
 	Gets, Puts, Reuses = 0, 0, 0
 	mu.Unlock()
@@ -158,6 +163,57 @@ func (p *Pool) Get() interface{} {
 	return x
 }
 
+// DoublePuts counts Put calls for an object that already sits in its pool (in the free list,
+// or - in the modes that never hand objects out again - among the last 32 objects put): two
+// later Gets would hand the same object to two owners. DoublePutNote describes the last one.
+var (
+	DoublePuts    int64
+	DoublePutNote string
+)
+
+// TakeDoublePut reports (and forgets) a double Put seen since the last call.
+func TakeDoublePut() (string, bool) {
+	if atomic.LoadInt64(&DoublePuts) == 0 {
+		return "", false
+	}
+	mu.Lock()
+	note := DoublePutNote
+	atomic.StoreInt64(&DoublePuts, 0)
+	mu.Unlock()
+	return note, true
+}
+
+func (p *Pool) noteDoublePut(x interface{}) {
+	id := ident(x)
+	if id == 0 || reflect.ValueOf(x).Kind() != reflect.Ptr {
+		return
+	}
+	seen := false
+	for _, y := range p.free {
+		if ident(y) == id {
+			seen = true
+		}
+	}
+	for _, y := range p.recent {
+		if y != nil && ident(y) == id {
+			seen = true
+		}
+	}
+	if seen {
+		atomic.AddInt64(&DoublePuts, 1)
+		DoublePutNote = fmt.Sprintf("%T put into its pool while it is already there", x)
+	}
+	if mode == Fresh || mode == FreshPoison {
+		// keep the object alive so that its address cannot be handed to a new object
+		if len(p.recent) < 32 {
+			p.recent = append(p.recent, x)
+		} else {
+			p.recent[p.recentAt%32] = x
+			p.recentAt++
+		}
+	}
+}
+
 func (p *Pool) Put(x interface{}) {
 	if h := Hook; h != nil {
 		h("pre", "put", p, x)
@@ -166,6 +222,9 @@ func (p *Pool) Put(x interface{}) {
 	m := mode
 	p.register()
 	Puts++
+	if m != Passthrough {
+		p.noteDoublePut(x)
+	}
 	switch m {
 	case Passthrough:
 		mu.Unlock()
